@@ -159,9 +159,15 @@ func (c *mtastsPolicy) Close() error {
 }
 
 func (c *mtastsDelivery) PrepareDomain(ctx context.Context, domain string) {
-	c.policyFut = future.New()
+	// The goroutine below must complete the future created for this domain,
+	// not whatever c.policyFut points to once the fetch is done: if the MX
+	// lookup fails before CheckMX is reached, PrepareDomain for the next
+	// recipient domain replaces c.policyFut while this fetch may still be
+	// running.
+	fut := future.New()
+	c.policyFut = fut
 	go func() {
-		c.policyFut.Set(c.c.mtastsGet(ctx, domain))
+		fut.Set(c.c.mtastsGet(ctx, domain))
 	}()
 }
 
